@@ -12,7 +12,7 @@
 From Coq Require Import List NArith Bool String.
 From Verif.Common Require Import Packet PolicyRef Ipt.
 From Verif.C08 Require Import Model Spec ProofsFilter.
-From Verif.C09 Require Import Model ProofsPolicy ProofsModel.
+From Verif.C09 Require Import Model ProofsPolicy ProofsQos ProofsModel.
 From Verif.C09 Require Spec.
 From Verif.C11 Require Import Bpf Model.
 From Verif.C11 Require Spec ProofsMain ProofsSets ProofsFinal.
@@ -38,7 +38,8 @@ Print Assumptions c12_checker_verdict.
      - the checker            (chk_endpoint kv),
    gives the same allow / deny verdict for every packet, namely the reference verdict.
    Hypotheses inherited from C09 (ipt_hyps, per flavour): disjoint mark bits, normal (filter) workload/host chain,
-   admin up, no VXLAN/IPIP block hit by this packet, distinct chain names, per-rule rendering correctness rule_ok
+   admin up, no QoS rate / connection-limit rules, the oracle for matches outside the packet (e_other) does not read
+   the mark (other_unmarked), no VXLAN/IPIP block hit by this packet, distinct chain names, per-rule rendering correctness rule_ok
    (C08: holds for rules with <= 2 positive match blocks on the pinned tree, for all rules with
    fixes/C08-scratch-bit.patch; c09_rule_ok_few_blocks / c09_rule_ok_fixed), no Pass rule in a profile unless the
    tree has the profile-pass-mark fix, drop mark clear on entry, conntrack state NEW, addresses within the family's
